@@ -145,20 +145,28 @@ def _bsp_text(vmf, use_comma_sep) -> str:
     return BSP.write_ent_data(vmf, use_comma_sep, _show_dep=False).decode('ascii', 'surrogateescape')
 
 
+OUT_BASE = {'output': 'OnTrigger', 'target': 'relay', 'input': 'Trigger', 'params': 'par', 'inst_out': None, 'inst_in': None}
+OUT_FIELDS = tuple(OUT_BASE)
+
+
 def _output(field: str, s: str, comma: bool):
+    """An Output whose str field `field` is s (set as an attribute, the way parsed outputs carry it)."""
     from srctools.vmf import Output
-    vals = {'out': 'OnTrigger', 'target': 'relay', 'input': 'Trigger', 'params': 'par'}
-    vals[field] = s
-    return Output(vals['out'], vals['target'], vals['input'], vals['params'], comma_sep=comma), vals
+    out = Output(OUT_BASE['output'], OUT_BASE['target'], OUT_BASE['input'], OUT_BASE['params'], comma_sep=comma)
+    setattr(out, field, s)
+    return out, None
 
 
 def _output_expect(field: str, s: str, sep: str) -> str:
-    """The token the field is part of: the output name alone, or the whole value string."""
-    vals = {'out': 'OnTrigger', 'target': 'relay', 'input': 'Trigger', 'params': 'par'}
+    """The token the field is part of, spelled out by the harness: the output name (with its
+    instance:<name>; prefix when an instance output name is set) or the whole value string."""
+    vals = dict(OUT_BASE)
     vals[field] = s
-    if field == 'out':
-        return s
-    return sep.join([vals['target'], vals['input'], vals['params'], '0', '-1'])
+    out_name = f"instance:{vals['inst_out']};{vals['output']}" if vals['inst_out'] else vals['output']
+    inp_name = f"instance:{vals['inst_in']};{vals['input']}" if vals['inst_in'] else vals['input']
+    if field in ('output', 'inst_out'):
+        return out_name
+    return sep.join([vals['target'], inp_name, vals['params'], '0', '-1'])
 
 
 def _dmx_text(elem) -> str:
@@ -175,7 +183,7 @@ def positions() -> dict:
     from srctools.dmx import Element
     from srctools.keyvalues import Keyvalues
     from srctools.math import Vec
-    from srctools.vmf import VMF, Cordon, Entity, Side, VisGroup
+    from srctools.vmf import VMF, Cordon, Entity, FixupValue, Side, VisGroup
     kv, tk = toklib.KV_OPTS, toklib.TOK_DEFAULTS
 
     def ident(x):
@@ -264,6 +272,11 @@ def positions() -> dict:
         'Entity.export/comments': (lambda x: _ent_text(ent_with(keys={'classname': 'a'}, comments=x)), ident, kv,
                                    lambda x: x or 'c'),          # an empty comment is not written at all
         'EntityFixup.export/value': (fixup_build, lambda x: '$var ' + x, kv, ident),
+        'EntityFixup.export/var': (lambda x: _ent_text(ent_with(keys={'classname': 'func_instance'},
+                                                                  fixup=[FixupValue(x, 'fixval', 1)])),
+                                   lambda x: '$' + x + ' fixval', kv, ident),
+        'Entity.export/logical_pos': (lambda x: _ent_text(ent_with(keys={'classname': 'a'}, logical_pos=x)), ident, kv,
+                                      lambda x: x or '[0 1]'),          # an empty value is replaced by a default
         'Side.export/material': (side_build, ident, kv, ident),
         'Cordon.export/name': (cordon_build, ident, kv, ident),
         'VisGroup.export/name': (vis_build, ident, kv, ident),
@@ -275,7 +288,7 @@ def positions() -> dict:
         'DMX.export_kv2/attr_value': (dmx_attr_val, ident, tk, ident),
         'DMX.export_kv2/array_value': (dmx_arr_val, ident, tk, ident),
     }
-    for field in ('out', 'target', 'input', 'params'):
+    for field in OUT_FIELDS:
         for comma in (False, True):
             sep = ',' if comma else ESC_SEP
             sn = 'comma' if comma else 'esc'
@@ -290,6 +303,57 @@ def positions() -> dict:
         pos[f'BSP.write_ent_data/output.{field}/forced-esc'] = (
             bsp_out(field, True, False), (lambda x, field=field: _output_expect(field, x, ESC_SEP)), tk, ascii_only)
     return pos
+
+
+# str fields of the classes whose writers embed text in a quoted run -> the positions that put a
+# hostile string there.  A str field that is found reflectively and is in neither table is a
+# machinery failure (a new embedded field must get a case).
+FIELD_CASES = {
+    ('Output', 'output'): 'Output.as_keyvalue/output/esc', ('Output', 'target'): 'Output.as_keyvalue/target/esc',
+    ('Output', 'input'): 'Output.as_keyvalue/input/esc', ('Output', 'params'): 'Output.as_keyvalue/params/esc',
+    ('Output', 'inst_out'): 'Output.as_keyvalue/inst_out/esc', ('Output', 'inst_in'): 'Output.as_keyvalue/inst_in/esc',
+    ('Entity', 'keys'): 'Entity.export/key', ('Entity', 'comments'): 'Entity.export/comments',
+    ('Entity', 'logical_pos'): 'Entity.export/logical_pos',
+    ('FixupValue', 'var'): 'EntityFixup.export/var', ('FixupValue', 'value'): 'EntityFixup.export/value',
+    ('Side', 'mat'): 'Side.export/material', ('Cordon', 'name'): 'Cordon.export/name', ('VisGroup', 'name'): 'VisGroup.export/name',
+    ('Element', 'name'): 'DMX.export_kv2/name', ('Element', 'type'): 'DMX.export_kv2/type',
+    ('Attribute', 'name'): 'DMX.export_kv2/attr_name',
+    ('Keyvalues', 'name'): 'Keyvalues.serialise/name', ('Keyvalues', 'value'): 'Keyvalues.serialise/value',
+}
+FIELD_EXCLUDED = {
+    ('Output', 'targ'): 'constructor spelling of target', ('Output', 'out'): 'constructor spelling of output',
+    ('Output', 'inp'): 'constructor spelling of input', ('Output', 'param'): 'constructor spelling of params',
+    ('VMF', 'map_info'): 'deprecated mapping, every entry is converted to int/bool before it is written',
+    ('VMF', 'by_target'): 'index, not written', ('VMF', 'by_class'): 'index, not written',
+    ('Element', '_members'): 'the attribute table: Attribute.name and the values are the cases',
+    ('Keyvalues', '_folded_name'): 'case-folded copy, not written', ('Keyvalues', '_real_name'): 'Keyvalues.name',
+    ('Keyvalues', '_value'): 'Keyvalues.value',
+}
+
+
+def check_field_cases(pos: dict) -> int:
+    """Every str-typed attribute / constructor parameter of the embedding classes has a position."""
+    import inspect
+    from srctools import dmx, vmf
+    from srctools.keyvalues import Keyvalues
+    classes = [vmf.Output, vmf.Entity, vmf.Side, vmf.Solid, vmf.Cordon, vmf.VisGroup, vmf.EntityGroup, vmf.Camera,
+               vmf.FixupValue, vmf.EntityFixup, vmf.VMF, dmx.Element, dmx.Attribute, Keyvalues]
+    found = 0
+    for cls in classes:
+        names: dict = {}
+        for k in reversed(cls.__mro__):
+            names.update(getattr(k, '__annotations__', {}))
+        names.update({k: p.annotation for k, p in inspect.signature(cls.__init__).parameters.items()})
+        for name, ann in names.items():
+            if 'str' not in str(ann):
+                continue
+            key = (cls.__name__, name)
+            found += 1
+            if key in FIELD_EXCLUDED:
+                continue
+            if key not in FIELD_CASES or FIELD_CASES[key] not in pos:
+                raise SystemExit(f'MACHINERY: str field {cls.__name__}.{name} ({ann}) has no writer-line case')
+    return found
 
 
 _POS: dict = {}
@@ -327,12 +391,13 @@ def mode_lines(out: str) -> None:
     w = hlib.RecWriter(out)
     if not _POS:
         _POS.update(positions())
+    n_fields = check_field_cases(_POS)
     strings = HOSTILE + [rand_string(rng)[:60] for _ in range(n)]
     for s in strings:
         for writer in sorted(_POS):
             w.write(line_record(writer, writer_line(writer, s)))
     w.close()
-    print(json.dumps({'records': w.n, 'positions': len(_POS), 'strings': len(strings)}))
+    print(json.dumps({'records': w.n, 'positions': len(_POS), 'strings': len(strings), 'str_fields': n_fields}))
 
 
 def mode_replay(path: str, out: str) -> None:
